@@ -302,52 +302,146 @@ func runC08(r *Run) {
 				}
 			}
 		}
-		strict := false
-		var cmpDesc string
-		for _, br := range branchesIn(f) {
-			if !mr.Loop[br.If.Block()] || br.Info.Other == nil {
-				continue
+		// Every update lies behind a comparison that orders the candidates strictly and totally:
+		//   len(prefix) > running length                                  (candidates are prefixes of one string, so
+		//                                                                   equal lengths mean equal prefixes), or
+		//   len(prefix) == running length  ∧  map key < remembered key    (needed as soon as the prefix compared is a
+		//                                                                   folded form of the key: two keys that differ in
+		//                                                                   letter case only fold to the same prefix)
+		isPhi := func(v ssa.Value) bool {
+			for _, p := range phis {
+				if v == ssa.Value(p) {
+					return true
+				}
 			}
-			a, b := br.Info.Root, br.Info.Other
-			isPhi := func(v ssa.Value) bool {
-				for _, p := range phis {
-					if v == ssa.Value(p) {
+			return false
+		}
+		// abstract evaluation: fix the sign of len(prefix) − running length (s1) and of key ⋚ remembered key (s2), walk
+		// one iteration of the loop deciding every test of those two comparisons, following both arms of all others,
+		// and see whether an update can be reached
+		cmpDesc := ""
+		kindOf := func(ci condInfo) (kind int, op token.Token) { // 1: length comparison, 2: key comparison
+			if ci.Other == nil {
+				return 0, ci.Op
+			}
+			a, b, op := ci.Root, ci.Other, ci.Op
+			switch {
+			case isLenOf(a, mr.Key) && isPhi(b):
+				return 1, op
+			case isLenOf(b, mr.Key) && isPhi(a):
+				return 1, flipOp(op)
+			case a == mr.Key && isPhi(b):
+				return 2, op
+			case b == mr.Key && isPhi(a):
+				return 2, flipOp(op)
+			}
+			return 0, op
+		}
+		holds := func(op token.Token, sign int) bool {
+			switch op {
+			case token.LSS:
+				return sign < 0
+			case token.LEQ:
+				return sign <= 0
+			case token.GTR:
+				return sign > 0
+			case token.GEQ:
+				return sign >= 0
+			case token.EQL:
+				return sign == 0
+			case token.NEQ:
+				return sign != 0
+			}
+			return false
+		}
+		isUpd := map[*ssa.BasicBlock]bool{}
+		for _, ub := range updBlocks {
+			isUpd[ub] = true
+		}
+		tie := 0
+		reachesUpdate := func(s1, s2 int) bool {
+			seen := map[*ssa.BasicBlock]bool{}
+			var walk func(b *ssa.BasicBlock) bool
+			walk = func(b *ssa.BasicBlock) bool {
+				if seen[b] || !mr.Loop[b] {
+					return false
+				}
+				seen[b] = true
+				if isUpd[b] {
+					return true
+				}
+				if iff, ok := b.Instrs[len(b.Instrs)-1].(*ssa.If); ok {
+					ci := decompose(iff.Cond)
+					if kind, op := kindOf(ci); kind != 0 {
+						sign := s1
+						if kind == 2 {
+							sign = s2
+						}
+						t := holds(op, sign) != ci.Neg
+						if t {
+							return walk(b.Succs[0])
+						}
+						return walk(b.Succs[1])
+					}
+				}
+				for _, su := range b.Succs {
+					if su != mr.Header && walk(su) {
 						return true
 					}
 				}
 				return false
 			}
-			var keySide ssa.Value
-			switch {
-			case isPhi(a):
-				keySide = b
-			case isPhi(b):
-				keySide = a
-			default:
+			for _, su := range mr.Header.Succs {
+				if walk(su) {
+					return true
+				}
+			}
+			return false
+		}
+		for _, br := range branchesIn(f) {
+			if !mr.Loop[br.If.Block()] {
 				continue
 			}
-			op := br.Info.Op
-			cmpDesc = fmt.Sprintf("%s %s %s", a.Name(), op, b.Name())
-			if (op == token.LSS || op == token.GTR) && isLenOf(keySide, mr.Key) {
-				// the winning edge must dominate every update
-				for _, want := range []bool{true, false} {
-					s := br.slotWhenRel(want)
-					tgt := br.If.Block().Succs[s]
-					all := len(updBlocks) > 0
-					for _, ub := range updBlocks {
-						if !dom(tgt, ub) {
-							all = false
-						}
-					}
-					if all && len(tgt.Preds) == 1 {
-						strict = true
+			if kind, op := kindOf(br.Info); kind == 1 {
+				cmpDesc = fmt.Sprintf("len(prefix) %s running length", op)
+			} else if kind == 2 {
+				tie++
+			}
+		}
+		strict := len(updBlocks) > 0 && cmpDesc != ""
+		var got []string
+		for _, s1 := range []int{-1, 0, 1} {
+			for _, s2 := range []int{-1, 0, 1} {
+				if reachesUpdate(s1, s2) {
+					got = append(got, fmt.Sprintf("(%+d,%+d)", s1, s2))
+					// allowed: longer prefix; or equally long and the key strictly on one side
+					if s1 < 0 || (s1 == 0 && s2 == 0) {
+						strict = false
 					}
 				}
 			}
 		}
+		// among equally long prefixes at most one direction of the key comparison may win
+		if reachesUpdate(0, -1) && reachesUpdate(0, 1) {
+			strict = false
+		}
+		if !reachesUpdate(1, -1) || !reachesUpdate(1, 1) || !reachesUpdate(1, 0) {
+			strict = false // a longer prefix must always win
+		}
+		cmpDesc += "; an update is reachable for (sign of length difference, sign of key comparison) ∈ {" + strings.Join(got, " ") + "}"
+		// is the prefix that is measured and compared a folded form of the key?
+		folded := false
+		for _, c := range callsIn(f, false) {
+			if mr.Loop[c.Block()] && (strings.Contains(c.Name, "utils/v2.ToLower") || c.Name == "strings.ToLower") && keyLike(c.Common.Args[0], mr.Key) {
+				folded = true
+			}
+		}
 		r.check(strict && len(keyVals) > 0, "ErrorHandler:strict-injective-key", r.pos(mr.Next),
-			"every update is dominated by a strict comparison of the running key with len(prefix), and the running key is set to that length",
+			"an update happens exactly for a longer prefix or, among equally long ones, for a key strictly on one side of the remembered key ("+cmpDesc+"), and the running length is set to that length",
 			"the running comparison ("+cmpDesc+") is not a strict comparison on len(prefix): with equal keys (e.g. sibling mounts /api and /api-v2, both 2 segments) the last one iterated wins, and map order differs between calls")
+		tieWins := reachesUpdate(0, -1) != reachesUpdate(0, 1)
+		r.check(!folded || (tie > 0 && tieWins), "ErrorHandler:folded-keys-need-a-tie-break", r.pos(mr.Next), fmt.Sprintf("the compared prefix is a folded form of the map key: %v; tie-breaks on the key as written: %d", folded, tie),
+			"the prefixes are compared in a case-folded form, so two mount points that differ in letter case only (/API and /api) are equally long candidates; without a tie-break on the keys as written the strict length comparison keeps whichever the map iteration yields first — the handler chosen for one path differs between calls")
 		// candidates are prefixes of one loop-invariant string
 		hp := false
 		for _, c := range callsMatching(f, false, nameIs("strings.HasPrefix")) {
@@ -738,7 +832,11 @@ func runC08(r *Run) {
 		nm := 0
 		for _, name := range []string{"(*App).mount", "(*Group).mount"} {
 			mf := r.Fn("", name)
-			for _, in := range instrsWhereOne(mf, func(in ssa.Instruction) bool { _, ok := in.(*ssa.MapUpdate); return ok }) {
+			var fromMount []ssa.Instruction
+			withHelpers(func() {
+				fromMount = instrsWhere(mf, func(in ssa.Instruction) bool { _, ok := in.(*ssa.MapUpdate); return ok })
+			})
+			for _, in := range fromMount {
 				mu := in.(*ssa.MapUpdate)
 				if !loadOfField(mu.Map, "mountFields.appList") {
 					continue
